@@ -21,7 +21,7 @@ RULE = ("one run = GFA1 graph with count tags + scheduled delivery + one multipl
 PROBES = ["factor0", "factor1", "negative", "factor_ge2", "self_link", "parallel_links", "containment",
           "given_names", "auto_names_collision", "name_with_star", "distribute_L", "distribute_R",
           "distribute_auto", "distribute_equal", "counts_divided", "id_tagged_edge", "gfa2_graph", "bad_copy_names",
-          "auto_names_collision_nonsegment", "mentioned_identifier", "not_a_segment"]
+          "auto_names_collision_nonsegment", "mentioned_identifier", "not_a_segment", "track_origin"]
 
 
 def gen(streams, tier, i):
@@ -81,7 +81,8 @@ def gen(streams, tier, i):
     ops = [{"op": "new", "vlevel": cfg.choice([0, 1, 1, 2, 3]), "version": version}]
     for ln in order + extra:
         ops.append({"op": "add", "line": ln, "as": "str"})
-    ops.append({"op": "multiply", "seg": notseg or seg, "notseg": bool(notseg), "factor": factor, "distribute": distribute, "copy_names": copy_names,
+    track = hr.random() < 0.2
+    ops.append({"op": "multiply", "seg": notseg or seg, "notseg": bool(notseg), "factor": factor, "track": track, "distribute": distribute, "copy_names": copy_names,
                 "by": hr.choice(["name", "line"]), "bad_names": bad_names})
     return {"cfg": {"order": mode, "version": version}, "ops": ops}
 
@@ -186,6 +187,10 @@ def run(scn, st):
         if op["copy_names"] is not None:
             kw["copy_names"] = list(op["copy_names"])
             st.count("probe.given_names")
+        if op.get("track"):
+            # the origin of the copies is recorded in a tag (of the copies and of the original)
+            kw["track_origin"] = True
+            st.count("probe.track_origin")
         target = seg if op["by"] == "name" else g.segment(seg)
         o = core.call(g.multiply, target, k, **kw)
         st.count("oracle.post_state")
@@ -259,6 +264,10 @@ def run(scn, st):
                 raise core.Violation("copy-sequence", "copy %s has sequence %r" % (c, f[2]))
             t0 = sorted(t for t in S0[seg][3:] if t[:2] not in ("RC", "FC", "KC"))
             t1 = sorted(t for t in f[3:] if t[:2] not in ("RC", "FC", "KC"))
+            if op.get("track") and not any(t.startswith("or:") for t in t0):
+                if "or:Z:%s" % seg not in t1:
+                    raise core.Violation("origin-not-tracked", "copy %s of %s lacks the origin tag: %r" % (c, seg, t1))
+                t1 = [t for t in t1 if t != "or:Z:%s" % seg]
             if t0 != t1:
                 raise core.Violation("copy-tags", "copy %s has tags %r, original %r" % (c, t1, t0))
             if c0:
